@@ -1,16 +1,5 @@
 #![allow(dead_code)]
-mod backends;
-mod c19;
-mod engine;
-mod faults;
-mod gens;
-mod props;
-mod keypool;
-mod refmodel;
-mod rng;
-mod selftest;
-mod texttypes;
-mod util;
+use pv::{c19, engine, keypool, props, selftest, util};
 
 fn main() {
     let args: Vec<String> = std::env::args().collect();
@@ -80,6 +69,21 @@ fn main() {
                 }
             }
             std::process::exit(if bad == 0 { 0 } else { 1 });
+        }
+        Some("fuzz-seeds") => {
+            // write the seed corpus for the libFuzzer targets
+            let dir = args.get(2).cloned().unwrap_or_default();
+            for t in ["parse_str", "unseal_edit"] {
+                let _ = std::fs::create_dir_all(format!("{dir}/{t}"));
+            }
+            for (name, bytes) in props::c04::fuzz_seeds() {
+                let _ = std::fs::write(format!("{dir}/parse_str/{name}"), &bytes);
+            }
+            let _ = std::fs::create_dir_all(format!("{dir}/key_bytes"));
+            let _ = std::fs::write(format!("{dir}/key_bytes/seed32"), [0u8; 34]);
+            let _ = std::fs::create_dir_all(format!("{dir}/b64_diff"));
+            let _ = std::fs::write(format!("{dir}/b64_diff/seed"), b"q83vEjRWeJA");
+            let _ = std::fs::write(format!("{dir}/unseal_edit/seed"), [0u8; 16]);
         }
         Some("genkeys") => {
             let out = keypool::generate(8, 4);
